@@ -1,9 +1,11 @@
 package props
 
 import (
+	"errors"
 	"fmt"
 	"io"
 	"math/rand"
+	"net/url"
 	"strings"
 	"time"
 
@@ -337,6 +339,46 @@ func c13SlowUpload(r *core.Run, idx int, rng *rand.Rand) {
 	}
 }
 
+// c13BrokenUpload: the upload of a POST-binding LogoutRequest breaks off (IO error) somewhere behind the complete
+// SAMLRequest parameter, inside the RelayState. A provider that answers such a request with Success has to return the
+// RelayState the service provider sent - which it cannot know; refusing is the only correct reply besides an error.
+func c13BrokenUpload(r *core.Run, idx int, rng *rand.Rand) {
+	const wl = "broken_upload"
+	e := env.Static(env.Opts{})
+	d := stdSP(rng.Intn(4))
+	d.SLO = []spsim.SLO{{Binding: spsim.BindPost, Location: "https://sp.example/slo/" + plainString(rng, 4)}}
+	mustRegister(e.W, d, "appA")
+	l := conformantLogout(rng, d)
+	relay := "MKrelay-" + plainString(rng, 30) + "%25&+=" + plainString(rng, 10)
+	order := idx%2 == 0
+	var body string
+	msg := "SAMLRequest=" + url.QueryEscape(spsim.B64([]byte(l.XML(rng))))
+	if order {
+		body = msg + "&RelayState=" + url.QueryEscape(relay)
+	} else {
+		body = "RelayState=" + url.QueryEscape(relay) + "&" + msg
+	}
+	// cut somewhere inside the last parameter's value
+	last := strings.LastIndex(body, "=") + 1
+	cut := last + 1 + rng.Intn(len(body)-last-1)
+	fb := &failingBody{data: []byte(body), n: cut, err: []error{io.ErrUnexpectedEOF, errors.New("read tcp: connection reset by peer")}[rng.Intn(2)]}
+	call := e.Do(env.Req{Method: "POST", Path: env.PathSLO, BodyReader: fb, BodyLen: int64(len(body)), CT: "application/x-www-form-urlencoded"})
+	class := fmt.Sprintf("broken_upload|relay_state_last=%v", order)
+	r.Eval(fmt.Sprintf("%s|%d", class, idx))
+	r.Count("broken_uploads", 1)
+	desc := map[string]any{"body_bytes": len(body), "delivered": cut, "relay_state_sent": relay}
+	if call.Panic != "" {
+		r.Violate(core.Violation{Clause: "panic", Class: class, Reason: call.Panic, Workload: wl, Index: idx, Case: desc, Observed: call.Describe()})
+		return
+	}
+	if call.D.Success() && (!call.D.HasRelay || normNL(call.D.RelayState) != normNL(relay)) {
+		r.Violate(core.Violation{Clause: "relay_state_changed", Class: class, Reason: fmt.Sprintf("Success for a request whose upload broke off after %d of %d bytes; RelayState returned %q, RelayState the service provider sent %q", cut, len(body), call.D.RelayState, relay), Workload: wl, Index: idx, Case: desc, Observed: call.Describe()})
+	}
+	if !call.D.Success() {
+		r.Count("broken_uploads_refused", 1)
+	}
+}
+
 func init() {
 	register(&Prop{
 		ID: "C13", Level: "exploration", DeathIsViolation: true,
@@ -354,10 +396,12 @@ func init() {
 			r.Require("reregistered_requests_checked", 100)
 			r.Require("tenant_sequence_requests", 100)
 			r.Require("slow_uploads", 30)
+			r.Require("broken_uploads", 100)
 			return []core.Workload{
 				{Name: "logout_requests", N: c.Pick(1200, 12000), Fn: c13Case},
 				{Name: "registration_changes", N: c.Pick(150, 1500), Fn: c13Registration},
 				{Name: "slow_upload", N: c.Pick(32, 160), Fn: c13SlowUpload},
+				{Name: "broken_upload", N: c.Pick(120, 1200), Fn: c13BrokenUpload},
 				{Name: "tenant_sequences", N: c.Pick(120, 1200), Fn: func(r *core.Run, idx int, rng *rand.Rand) {
 					tenantSequence(r, "tenant_sequences", idx, rng, true, false)
 				}},
